@@ -100,6 +100,214 @@ def run(P, rep, tier):
     r1712(P, rep)
     r1713(P, rep)
     r1714(P, rep)
+    r1715(P, rep)
+    r1716(P, rep)
+
+
+def _ident_guard(fd, call, base_src):
+    """the path to `call` has tested `<base>->kind` against TK_IDENT: an earlier `if (<base>->kind != TK_IDENT) <noreturn diagnostic>` with no
+    assignment to <base> in between, or the call sits in the then-branch of `if (<base>->kind == TK_IDENT)`"""
+    order = list(fd.walk())
+    pos = {id(n): i for i, n in enumerate(order)}
+    here = pos.get(id(call))
+    if here is None:
+        return False
+
+    def tests(cond, op):
+        for b in cond.walk():
+            if b.kind == 'BinaryOperator' and b.opcode == op:
+                l, r = b.inner[0].strip_all(), b.inner[1].strip_all()
+                for x, y in ((l, r), (r, l)):
+                    if x.kind == 'MemberExpr' and x.name == 'kind' and x.inner[0].strip_all().src() == base_src and y.kind == 'DeclRefExpr' and y.ref_name == 'TK_IDENT':
+                        # the test must decide the branch by itself: not below a `&&` / `||`
+                        p = b.parent
+                        while p is not None and p is not cond.parent and p.kind in ('ParenExpr', 'ImplicitCastExpr'):
+                            p = p.parent
+                        if p is cond.parent or b is cond.strip():
+                            return True
+        return False
+    for a in call.ancestors():
+        if a.kind == 'IfStmt' and len(a.inner) >= 2 and tests(a.inner[0], '==') and any(x is call for x in a.inner[1].walk()):
+            return True
+    for n in order[:here]:
+        if n.kind != 'IfStmt' or len(n.inner) < 2 or not tests(n.inner[0], '!='):
+            continue
+        if not n.inner[1].calls(('error', 'error_tok', 'error_at', 'exit', 'abort')):
+            continue
+        # the guard is on the way to the call: the call is not inside the guard, and they share the enclosing compound statement chain
+        if any(x is call for x in n.walk()):
+            continue
+        if not any(a is n.parent for a in call.ancestors()):
+            continue
+        end = max(pos[id(x)] for x in n.walk())
+        clobbered = False
+        for m in order[end + 1:here]:
+            if m.kind == 'BinaryOperator' and m.opcode == '=' and m.inner[0].strip().src() == base_src:
+                clobbered = True
+        if not clobbered:
+            return True
+    return False
+
+
+def r1716(P, rep):
+    """`a name is defined exactly when its most recent operation was a definition`: the key under which a definition enters the macro table must be the
+    NAME - an identifier.  find_macro looks identifiers up, so an entry made under any other string (the text `F(x)` before the `=` of -D'F(x)=x+1') is a
+    definition after which the name it was meant for is still undefined.  Every value that can reach the name parameter of the table writer is traced back
+    through parameters/locals to where the string is made: an identifier literal, or the spelling of a token the path has tested to be TK_IDENT"""
+    import re
+    from ..lib_c17_memo import MemoKeys
+    rep.rule('R17.16', 'every string that can reach the key of an insertion into the macro table is a macro name: traced back through parameters and once-defined locals over all call sites it is an identifier literal or the spelling (loc, len) of a token whose kind the path has tested to be TK_IDENT; text cut out of a command-line word is not lexed and is not a name', floor=2)
+    M = MemoKeys(P)
+    pu = P.unit('preprocess.c')
+    if 'add_macro' not in pu.functions:
+        raise AnalysisBroken('add_macro vanished')
+    CHAR_TESTS = ('is_ident1', 'is_ident2', 'isalpha', 'isalnum', 'strspn', 'strcspn', 'strpbrk')
+    leaves = []            # (kind, unit, fn, node, detail)
+
+    def resolve(f, e, seen):
+        un, fd = M.fn[f]
+        n = e.strip_all()
+        if n.kind == 'DeclRefExpr' and n.ref_kind == 'ParmVarDecl':
+            ids = [i for i, _ in M._params[f]]
+            if n.ref_id not in ids or M._defs[f].get(n.ref_id):
+                leaves.append(('other', un, f, n, 'a parameter that is assigned in the function')); return
+            j = ids.index(n.ref_id)
+            if (f, j) in seen:
+                return
+            sites = M.calls.get(f, ())
+            if not sites:
+                leaves.append(('other', un, f, n, 'a parameter of a function without a visible call')); return
+            for (cu, cf, c) in sites:
+                if len(c.args()) > j:
+                    resolve(cf, c.args()[j], seen | {(f, j)})
+            return
+        if n.kind == 'DeclRefExpr' and n.ref_kind == 'VarDecl' and n.ref_id in M._locals.get(f, ()):
+            d = M._defs[f].get(n.ref_id, [])
+            if len(d) == 1 and d[0] is not None:
+                resolve(f, d[0], seen); return
+            leaves.append(('other', un, f, n, 'a local with several definitions')); return
+        if n.kind == 'StringLiteral':
+            leaves.append(('lit', un, f, n, n.str_value())); return
+        if n.kind == 'CallExpr' and n.callee() == 'strdup' and n.args():
+            resolve(f, n.args()[0], seen); return
+        if n.kind == 'CallExpr' and n.callee() == 'strndup' and len(n.args()) == 2:
+            a, b = n.args()[0].strip_all(), n.args()[1].strip_all()
+            if a.kind == 'MemberExpr' and a.name == 'loc' and b.kind == 'MemberExpr' and b.name == 'len' and a.inner[0].strip_all().src() == b.inner[0].strip_all().src():
+                base = a.inner[0].strip_all().src()
+                leaves.append(('token' if _ident_guard(fd, n, base) else 'unchecked-token', un, f, n, base)); return
+            leaves.append(('cut', un, f, n, 'a piece of a string cut out with strndup()')); return
+        leaves.append(('other', un, f, n, 'a string that is not made by the lexer (`%s`, e.g. a command-line word)' % n.src()))
+
+    nsite = 0
+    for c in pu.fn('add_macro').calls(('hashmap_put', 'hashmap_put2')):
+        if c.args() and c.args()[0].src().lstrip('&') == 'macros' and len(c.args()) > 1:
+            nsite += 1
+            resolve('add_macro', c.args()[1], frozenset())
+    if not nsite or not leaves:
+        rep.undecided('R17.16', 'preprocess.c:add_macro:key', 'the insertion into the macro table (or the origin of its key) was not found')
+        return
+    ident = re.compile(r'^[A-Za-z_][A-Za-z0-9_]*$')
+    by = {}
+    for lf in leaves:
+        by.setdefault((lf[1], lf[2]), []).append(lf)
+    for (un, f), ls in sorted(by.items()):
+        fd = M.fn[f][1]
+        where = lambda n: '%s:%d' % (un, n.line)
+        lits = [l for l in ls if l[0] == 'lit']
+        if lits:
+            bad = [l for l in lits if not ident.match(l[4] or '')]
+            rep.ob('R17.16', '%s:%s:macro-name-literals-are-identifiers' % (un, f), not bad,
+                   'a macro is entered under the literal %r, which is not an identifier: no identifier lookup can find it' % ([l[4] for l in bad][:3],), where=where((bad or lits)[0][3]), facts={'literals': len(lits)})
+        toks = [l for l in ls if l[0] == 'token']
+        if toks:
+            rep.ob('R17.16', '%s:%s:macro-name-is-the-spelling-of-an-identifier-token' % (un, f), True, '', where=where(toks[0][3]))
+        for l in ls:
+            if l[0] == 'unchecked-token':
+                rep.ob('R17.16', '%s:%s:macro-name-token-kind-not-tested' % (un, f), False,
+                       'the spelling of token `%s` becomes a macro name on a path that has not tested its kind to be TK_IDENT: `#define 1 2` / `#define ( x` would enter a non-name into the table' % l[4], where=where(l[3]))
+        raw = [l for l in ls if l[0] in ('cut', 'other')]
+        if raw:
+            lexed = bool(fd.calls(CHAR_TESTS))
+            kinds = sorted({'text-cut-out-of-a-string' if l[0] == 'cut' else 'unlexed-string' for l in raw})
+            for k in kinds:
+                l = [x for x in raw if (x[0] == 'cut') == (k == 'text-cut-out-of-a-string')][0]
+                if lexed:
+                    rep.undecided('R17.16', '%s:%s:macro-name/%s' % (un, f, k), '%s reaches the key of the macro table; the function tests characters, but the analysis cannot tell that only identifiers pass' % l[4], where=where(l[3]))
+                else:
+                    rep.ob('R17.16', '%s:%s:macro-name-is-%s' % (un, f, k), False,
+                           '%s reaches the key of the macro table (through %s) without being lexed: the table gets a definition under a string that is not an identifier - '
+                           '`-DF(x)=x+1` enters an object-like macro literally named `F(x)`, which no lookup can find, while F, the name the definition is for, stays undefined '
+                           '(gcc defines the function-like macro F); `-D"A B"` likewise' % (l[4], f), where=where(l[3]))
+
+
+def r1715(P, rep):
+    """a memo table (static HashMap that is not keyed by token spelling: the `#pragma once` table, the guard memo, the include-path cache) is a dictionary
+    only for the string its reader looks up.  The reader asks under one of its own parameters; an entry made by another function answers that question only
+    if the key it was entered under is that very string: the parameter handed down a call chain, or a record field that is given it when the object is made
+    and is written nowhere else (File.name, set by new_file from tokenize_file(path)).  A field that some other statement rewrites (File.display_name, set
+    by #line) is a different string after that statement: the entry is then never found under the path (the file is read again and its #define/#undef run
+    a second time) and an unrelated path that happens to equal it is answered with an entry nobody made for it"""
+    from ..lib_c17_memo import MemoKeys, describe, slug, recognised
+    rep.rule('R17.15', 'the key written by every writer of a memo table is the key its reader looks up: each get/put/delete on a static table that is not keyed by token spelling passes a value that carries the string the reader function looks up under its own parameter - that parameter, a parameter it is handed to down a call chain, or a record field all of whose stores in the program store that string (set at creation, never rewritten)', floor=4)
+    M = MemoKeys(P)
+    tabs = M.table_accesses()
+    ntab = 0
+    for tid in sorted(tabs, key=lambda t: (t[0], t[1] or '')):
+        acc = tabs[tid]
+        ops = {a[0] for a in acc}
+        if 'get' not in ops or not (ops & {'put', 'delete'}):
+            continue
+        # keyed by spelling (token text, keyword lists, macro names): the content of the key is the identity; R17.7 / R17.14 speak about those
+        spelled = False
+        for (op, un, f, c, k) in acc:
+            kk = k.strip_all()
+            if kk.kind == 'MemberExpr' and kk.name == 'loc':
+                spelled = True
+            if kk.kind == 'ArraySubscriptExpr':
+                spelled = True
+        if spelled:
+            continue
+        tname = tid[0]
+        readers = [(a, M.origin(a[2], a[4])) for a in acc if a[0] == 'get']
+        anchors = [(a, o) for a, o in readers if o[0] in ('param', 'local1')]
+        u0 = readers[0][0][1]
+        if not anchors:
+            rep.undecided('R17.15', '%s:%s:%s:reader-key' % (u0, readers[0][0][2], tname), 'no reader of table `%s` looks it up under a parameter or a once-defined local of its own (%s): the string the table is about cannot be named' % (tname, describe(readers[0][1])),
+                          where='%s:%d' % (u0, readers[0][0][3].line))
+            continue
+        ntab += 1
+        (aa, anchor) = anchors[0]
+        F = M.flow(anchor)
+        rep.ob('R17.15', '%s:%s:%s:looked-up-under-own-parameter' % (aa[1], aa[2], tname), True, '', where='%s:%d' % (aa[1], aa[3].line), facts={'key': describe(anchor)})
+        for (op, un, f, c, k) in acc:
+            if c is aa[3]:
+                continue
+            o = M.origin(f, k)
+            where = '%s:%d' % (un, c.line)
+            if F.member(o):
+                rep.ob('R17.15', '%s:%s:%s:%s-key-is-the-lookup-key' % (un, f, tname, op), True, '', where=where, facts={'key': describe(o)})
+                continue
+            what = ('%s on table `%s` uses %s as key, while %s looks the table up under %s' % (c.callee(), tname, describe(o), aa[2], describe(anchor)))
+            if o[0] == 'field':
+                fs = F.foreign_stores(o)
+                known = [x for x in fs if recognised(x[2])]
+                if o[1] in M.init_listed or not M.stores.get(o[1:3]):
+                    rep.undecided('R17.15', '%s:%s:%s:%s-key/%s' % (un, f, tname, op, slug(o)), what + '; the stores that give that field its value are not assignments the analysis follows (initialiser list / none found)', where=where)
+                    continue
+                if fs and not known:
+                    rep.undecided('R17.15', '%s:%s:%s:%s-key/%s' % (un, f, tname, op, slug(o)), what + '; the field is also written with a value the analysis cannot name (in %s)' % ', '.join(sorted({x[1] for x in fs})), where=where)
+                    continue
+                also = '; that field is also written by %s' % ', '.join('%s (%s:%d, with %s)' % (x[1], x[0], x[3].line, describe(x[2])) for x in known[:3]) if known else '; no store of the looked-up string into that field was found'
+                rep.ob('R17.15', '%s:%s:%s:%s-key-is-%s' % (un, f, tname, op, slug(o)), False,
+                       what + also + ': once the two differ the entry is not found under the looked-up key (the memoised work is redone - a header is read again and its #define/#undef directives run twice, overriding later definitions) '
+                       'and a lookup whose key happens to equal the other string is answered by an entry nobody made for it', where=where, facts={'key': describe(o), 'lookup key': describe(anchor)})
+            elif recognised(o):
+                rep.ob('R17.15', '%s:%s:%s:%s-key-is-%s' % (un, f, tname, op, slug(o)), False,
+                       what + ': nothing makes the two the same string, so the table does not answer for the key that was entered', where=where, facts={'key': describe(o), 'lookup key': describe(anchor)})
+            else:
+                rep.undecided('R17.15', '%s:%s:%s:%s-key/%s' % (un, f, tname, op, slug(o)), what + '; the analysis cannot tell whether the two are the same string', where=where)
+    if ntab < 2:
+        rep.undecided('R17.15', 'preprocess.c:memo-tables', 'only %d memo table(s) (static HashMap with a reader and a writer, not keyed by token spelling) found: the include memo tables are not recognised any more' % ntab)
 
 
 def r1711(P, rep):
@@ -790,12 +998,16 @@ def r177(P, rep):
             for c in fd.calls():
                 if c.callee() in ('hashmap_put', 'hashmap_put2') and c.args() and c.args()[0].src().lstrip('&') in once:
                     nput += 1
-                    guarded = False
-                    for a in c.ancestors():
-                        if a.kind == 'IfStmt':
-                            lits = {x.str_value() for x in a.inner[0].walk() if x.kind == 'StringLiteral'}
-                            if 'once' in lits:
-                                guarded = True
+                    def in_arm(n, fn_name, depth=0):
+                        for a in n.ancestors():
+                            if a.kind == 'IfStmt':
+                                lits = {x.str_value() for x in a.inner[0].walk() if x.kind == 'StringLiteral'}
+                                if 'once' in lits:
+                                    return True
+                        # an extracted helper: every call of it sits in the directive arm
+                        sites = [s for g, gd in pu.functions.items() for s in gd.calls(fn_name)]
+                        return depth < 3 and bool(sites) and all(in_arm(s, s.enclosing('FunctionDecl').name if s.enclosing('FunctionDecl') else None, depth + 1) for s in sites)
+                    guarded = in_arm(c, fname)
                     rep.ob('R17.7', 'preprocess.c:%s:pragma-once-table-writer' % fname, guarded,
                            'the `#pragma once` table (%s) gets a key outside the `#pragma once` directive arm: a lookup then finds a key no directive put there (e.g. a file skipped once because its guard macro was defined stays skipped after #undef)' % c.args()[0].src(),
                            where='preprocess.c:%d' % c.line)
